@@ -88,7 +88,7 @@ Params(f) ==
                      [rf |-> Pick({<<9, 10>>, <<1, 2>>}, {<<3, 10>>}), chi0 |-> Pick({<<1, 1>>, <<2, 1>>}, {}), g0 |-> Pick({<<1, 1>>}, {<<2, 1>>}),
                       bigamma |-> Pick({<<1, 1>>, <<2, 1>>}, {})]
     [] f = "RadShock" -> \* Cv in units of the default 1.4472799784454e12 erg/(g eV)
-                         [solver |-> Pick({"ED", "nED", "LM_nED"}, {"FLD_LP", "FLD_1", "FLD_2"}), M0 |-> Pick({<<6, 5>>, <<2, 1>>}, {<<21, 20>>, <<3, 1>>, <<5, 1>>}),
+                         [solver |-> Pick({"ED", "nED", "LM_nED", "Sn"}, {"FLD_LP", "FLD_1", "FLD_2"}), M0 |-> Pick({<<6, 5>>, <<2, 1>>}, {<<21, 20>>, <<3, 1>>, <<5, 1>>}),
                           gamma |-> Pick({<<5, 3>>, <<7, 5>>}, {}), Cv |-> Pick({<<1, 1>>, <<1, 2>>}, {}), Tref |-> Pick({<<100, 1>>, <<200, 1>>}, {}),
                           rho0 |-> Pick({<<1, 1>>}, {<<1, 2>>}),
                           opac |-> {"constant", "lowrie", "kramers+scattering"}]      \* cross-section coefficients and exponents (resolved by the driver)
@@ -152,6 +152,9 @@ Defined(f, p, t) ==
   LET k == Geom(f, p) - 1 IN
   CASE f \in RiemannFams -> /\ ~(QEq(p.pl, p.pr) /\ QEq(p.ul, p.ur))                   \* a pure contact has no acoustic waves
                             /\ ~(QEq(p.pl, p.pr) /\ QEq(p.rl, p.rr) /\ QEq(p.gl, p.gr))  \* mirror-symmetric data: no contact
+    \* the discrete-ordinates solver takes 20 s for M0 = 1.2 and minutes beyond: one configuration in the quick tier, weak shocks in the thorough tier
+    [] f = "RadShock" -> p.solver = "Sn" => /\ QLe(p.M0, <<6, 5>>) /\ p.opac = "constant"
+                                           /\ (Tier = "quick" => QEq(p.gamma, <<5, 3>>) /\ QEq(p.Cv, <<1, 1>>) /\ QEq(p.Tref, <<100, 1>>))
     [] f = "Riemann2D" -> ~(QEq(p.pB, p.pT) /\ QEq(p.thB, p.thT))     \* equal pressures and directions: a pure slip line, no waves
     [] f = "BBNoh" -> p.eos # "ideal" => p.symmetry = 0     \* with a non-ideal EOS the cold converging inflow is not an EOS state (section 7)
     [] f = "Sedov" -> QLt(p.omega, <<Geom(f, p), 1>>)
